@@ -90,7 +90,7 @@ func runC12(c *Ctx) {
 			continue
 		}
 		for _, s := range u.Sites {
-			if s.Kind != flow.SStore || s.RHS == nil {
+			if s.Kind != flow.SStore {
 				continue
 			}
 			l := u.C.Term(s.LHS)
@@ -98,7 +98,8 @@ func runC12(c *Ctx) {
 				continue
 			}
 			base := strings.SplitN(l, "[", 2)[0]
-			if u.C.Term(s.RHS) != "(1 + "+l+")" {
+			// an increment of the last byte, however it is spelled (k[n-1]++, += 1, = k[n-1] + 1)
+			if !(s.Tok.String() == "++" || s.RHS != nil && u.C.Term(s.RHS) == "(1 + "+l+")") {
 				continue
 			}
 			nStop++
